@@ -94,6 +94,10 @@ where
             .map_err(|_e| Error::Group("Storage error while getting group".to_string()))?
             .ok_or(Error::GroupNotFound)?;
 
+        // A pre-set rumor id must be the NIP-01 hash of the rumor's own fields: it becomes the
+        // storage key of the message (receivers refuse anything else, see process_application_message)
+        rumor.verify_id()?;
+
         // Create message
         let message: Vec<u8> = self.create_mls_message_payload(&mut mls_group, &mut rumor)?;
 
